@@ -4,14 +4,15 @@ not own.
 
 Every op line is self-contained:
 
-  op <id> <opname> <pkg> (cfg u s x v z l e r n k) <parts…>
+  op <id> <opname> <pkg> (cfg u s x v p g q z l e r n k) <parts…>
 
-`cfg` = the ten model variant flags (unnamedFixed shadowFixed crossFixed voidFixed zeroFixed lhsFixed errTypeFixed errRecvFixed typedNilFixed localsFixed), parts
+`cfg` = the thirteen model variant flags (unnamedFixed shadowFixed crossFixed voidFixed prefixFixed universeFixed resultsFixed zeroFixed lhsFixed errTypeFixed errRecvFixed typedNilFixed localsFixed), parts
 are lists with a head atom:
   (ps (<name> Z<k>)…)   parameters, `<>` = unnamed, `_` = blank; Z<k> = type of the corpus table
                         (bound by a `ty Z<k> <wire type>` prelude line)
   (outer …) (inner …)   the two parameter lists of a curried function
   (rs Z<k>…)            result types          (ts Z<k>…) tuple component types
+  (rn <name>…)          result names (optional; `<>` = unnamed)
   (ins Z<k>…) (stages (Z<k>…)…)  compose chain: parameter types of stage 0, non-error results per stage
   (in Z<k>) (outs Z<k>…) fmap/join/traverse element and result types
   (args n…) (list n…) | (nillist)  argument payloads; (fail s k) failing stage and error number or (fail);
@@ -67,8 +68,9 @@ def bit : SExp → Option Bool
 def parseFlags (args : List SExp) : Option Flags := do
   let c ← findList args "cfg"
   match ← c.mapM bit with
-  | [u, s, x, v, z, l, e, r, n, k] =>
-    some { plumb := { unnamedFixed := u, shadowFixed := s, crossFixed := x, voidFixed := v },
+  | [u, s, x, v, p, g, q, z, l, e, r, n, k] =>
+    some { plumb := { unnamedFixed := u, shadowFixed := s, crossFixed := x, voidFixed := v, prefixFixed := p,
+                      universeFixed := g, resultsFixed := q },
            chain := { zeroFixed := z, lhsFixed := l, errTypeFixed := e, errRecvFixed := r, typedNilFixed := n,
                       localsFixed := k } }
   | _ => none
@@ -223,29 +225,47 @@ def stage (s : DState) (fail : Option Err) (i : Nat) (rs : List Nat) (off : Nat 
 
 def zerosFor (rs : List Nat) : List Nat := rs.map fun _ => 0
 
-/-- wrapper term, well-formedness and reason of a C15 package of the given kind -/
+
+/-- `(rn <name>…)`: the names of the results (absent or `<>`: unnamed) -/
+def parseResNames (args : List SExp) : Option (List Name) :=
+  match findList args "rn" with
+  | none => some []
+  | some xs => xs.mapM fun
+    | .atom a => some (parseName a)
+    | _ => none
+
 def plumbWf (cfg : Plumb.Cfg) (kind : String) (args : List SExp) : Option (Bool × String) :=
   match kind with
   | "curry" | "flip" | "apply" | "uncurrycurry" => do
     let ps ← parseParams args "ps"
     let n := (← parseTyIds args "rs").length
+    let rn := Plumb.effResults cfg (← parseResNames args)
     let eff := Plumb.effParams cfg [Plumb.fName] Plumb.paramPrefix ps
-    let why := whyNames (Plumb.names eff) [Plumb.fName] (n == 0 && !cfg.voidFixed)
+    let ens := Plumb.names eff
+    let why0 := whyNames ens [Plumb.fName] (n == 0 && !cfg.voidFixed)
+    -- the named results live in the innermost function literal
+    let resOk (outerNs innerNs : List Name) : Bool := Plumb.resultsOk outerNs innerNs rn
+    let fin (wfOk rOk : Bool) : Bool × String := (wfOk && rOk, if wfOk && !rOk then "resultname" else why0)
     match kind with
-    | "curry" => some (Plumb.wrapperWellFormed (Plumb.curryTm cfg ps n), why)
-    | "flip" => some (Plumb.wrapperWellFormed (Plumb.flipTm cfg ps n), why)
-    | "apply" => some (Plumb.wrapperWellFormed (Plumb.applyTm cfg ps n), why)
+    | "curry" => some (fin (Plumb.wrapperWellFormed (Plumb.curryTm cfg ps n)) (resOk (ens.take 1) (ens.drop 1)))
+    | "flip" => some (fin (Plumb.wrapperWellFormed (Plumb.flipTm cfg ps n)) (resOk [] ens))
+    | "apply" => some (fin (Plumb.wrapperWellFormed (Plumb.applyTm cfg ps n)) (resOk (ens.drop (ens.length - 1)) (ens.take (ens.length - 1))))
     | _ =>
       let (first, rest) := Plumb.currySig eff
-      some (Plumb.wrapperWellFormed (Plumb.curryTm cfg ps n) &&
-            Plumb.wrapperWellFormed (Plumb.uncurryTm cfg first rest n), why)
+      let (o, i) := Plumb.uncurryParams cfg first rest
+      some (fin (Plumb.wrapperWellFormed (Plumb.curryTm cfg ps n) &&
+            Plumb.wrapperWellFormed (Plumb.uncurryTm cfg first rest n))
+            (resOk (ens.take 1) (ens.drop 1) && resOk [] (Plumb.names (o ++ i))))
   | "uncurry" => do
     let outer ← parseParams args "outer"
     let inner ← parseParams args "inner"
     let n := (← parseTyIds args "rs").length
+    let rn := Plumb.effResults cfg (← parseResNames args)
     let (o, i) := Plumb.uncurryParams cfg outer inner
-    some (Plumb.wrapperWellFormed (Plumb.uncurryTm cfg outer inner n),
-          whyNames (Plumb.names (o ++ i)) [Plumb.fName] (n == 0 && !cfg.voidFixed))
+    let wfOk := Plumb.wrapperWellFormed (Plumb.uncurryTm cfg outer inner n)
+    let rOk := Plumb.resultsOk [] (Plumb.names (o ++ i)) rn
+    some (wfOk && rOk, if wfOk && !rOk then "resultname"
+      else whyNames (Plumb.names (o ++ i)) [Plumb.fName] (n == 0 && !cfg.voidFixed))
   | "tuple" => do
     let ts ← parseTyIds args "ts"
     some (Plumb.wrapperWellFormed (Plumb.tupleTm ts), "other")
@@ -281,7 +301,7 @@ def chainWf (s : DState) (fl : Flags) (kind : String) (args : List SExp) : Optio
     let rs ← parseTyIds args "rs"
     -- type 2 of the corpus table is bool
     let why := if !(fl.chain.localsFixed || ErrChain.toErrorLocalsOk eff rs 2) then "locals"
-      else whyNames (Plumb.names eff) [Plumb.fName, ErrChain.errName]
+      else whyNames (Plumb.names eff) [Plumb.fName, Plumb.errName]
     some (ErrChain.toErrorWfExact fl.plumb fl.chain.localsFixed ps rs 2, why)
   | _ => none
 
